@@ -1,4 +1,5 @@
-"""C09 — overlap_add.list and the stft wrapper.  Tie: small exhaustive grid + random + malformed stream.
+"""C09 — overlap_add.list and the stft wrapper.  Tie: small exhaustive grid + random + malformed stream
++ histories (several calls sharing argument objects: no argument is modified, no state between calls).
 
 Only `overlap_add.list` can be tied: `overlap_add.numpy` (the default strategy) needs numpy, which the
 sandbox interpreter does not have; its loop (`blk[:-hop] += old[hop:]`) is the same recurrence.
@@ -10,9 +11,22 @@ from fractions import Fraction as F
 ID = "C09"
 RULE = ("grid (size<=6 x hop<=size x m<=4 x normalise x window kind) + random (size<=8, m<=5, four window "
         "kinds + tuple/Stream/empty, int/Fraction/float samples) + malformed stream (wrong block or window "
-        "length, non-iterable window, hop>size, hop=0, size detection on no block); non-trivial = no error, "
-        "at least one block and one output sample; distinct = distinct JSON case")
+        "length, non-iterable window, hop>size, hop=0, size detection on no block) + histories (1-6 calls of "
+        "overlap_add.list / the stft wrapper sharing argument objects: one window list / tuple, one memoised window "
+        "callable returning the same list object, one list of block objects, one signal list, one kwargs dict, one "
+        "wrapper object or one partial application specialised twice, one window as wnd and ola_wnd; normalise on/off "
+        "varying between the calls; every call is compared with the model / spec of that call taken alone on the "
+        "argument values as they were before the first call, every shared object must still equal its pristine "
+        "copy after every call, and a disagreeing later call is run again as the only call of a fresh process); "
+        "non-trivial = no error, at least one block and one output sample (history: one call with output and one "
+        "object used twice); distinct = distinct JSON case")
 TRUSTED = [
+    "the Lean model / spec is a pure function of the request of one call: `ALV.Driver.C09.handle \"hist\"` answers every call "
+    "of a history by `handleCall` on that call's own request, so 'the result depends only on the call's own argument values' "
+    "holds for the model by construction (nothing to prove); that the REAL code has no state between calls and leaves its "
+    "arguments alone is what the history cases test, it is not proved",
+    "history isolation (harness/props/c09.py:_zygote_start): a process forked before the first case runs, one forked child per "
+    "history; the first 300 histories of a run always, later ones when they disagree in-process",
     "hand-written Lean model ALV/Model/C09.lean of overlap_add.list and of the stft wrapper (modelled, not "
     "verified: Python slice assignment, iterator consumption by map(), generator protocol, Stream.blocks = C08 model)",
     "overlap_add.numpy is NOT tied (numpy unavailable in the sandbox); only overlap_add.list is run",
@@ -20,6 +34,8 @@ TRUSTED = [
     "rational (binary floats exact), else relative tolerance 1e-9",
 ]
 ASSUMPTIONS = [
+    "arguments that are consumed by nature (generators, Streams, iterators) are not handed to two calls; `blocks` reusing its "
+    "deque between the blocks it yields is documented behaviour and not flagged (blocks are snapshotted when received)",
     "size >= 1; the property quantifies over 1 <= hop <= size (hop > size and hop = 0 are modelled and tied, "
     "but the spec is silent there)",
     "normalisation is modelled over an ordered field (int / Fraction / float windows); complex windows are outside",
@@ -34,7 +50,8 @@ MANIFEST = {
     "note": "overlap_add.numpy cannot be run here (no numpy) and is not tied; Python slice assignment, map() consumption and the "
             "generator protocol are modelled, not verified; floats injected by the impl (mem=[0.]*size, 1/ceil) are compared exactly "
             "on dyadic inputs and with relative tolerance 1e-9 otherwise; known defect D7 recorded in known_findings/C09.json",
-    "technique": "Lean 4 machine-checked proof over an executable model + differential correspondence with spies in three calling styles",
+    "technique": "Lean 4 machine-checked proof over an executable model + differential correspondence with spies in three calling styles "
+                 "+ call histories sharing argument objects (argument immutability, independence from earlier calls)",
 }
 
 TOL = F(1, 10 ** 9)
@@ -278,6 +295,8 @@ def generate(rng, tier, scale=1):
     for i in range(nst):
         kind = ("plain", "plain", "identity", "identity", "bad", "ola_none", "plain_np")[i % 7]
         cases.append(_mk_stft(rng, kind))
+    # --- histories: calls sharing argument objects (no argument is modified, no state between calls) ----
+    cases.extend(_gen_hist(rng, tier, scale))
     return cases
 
 
@@ -517,6 +536,12 @@ def _py_wnd(c):
         dflt = None if w.get("default") is None else [_py(x, num) for x in w["default"]]
         if wkind == "callable_gen":
             return lambda n: (x for x in tab[n]) if n in tab else (None if dflt is None else iter(dflt))
+        if wkind == "memo":
+            # a memoised window function (functools.lru_cache style): the SAME list object on every call
+            def memo(n):
+                return tab[n] if n in tab else (3 if dflt is None else dflt)
+            memo.cache = tab
+            return memo
         return lambda n: list(tab[n]) if n in tab else (3 if dflt is None else list(dflt))
     l = [_py(x, num) for x in w["w"]]
     if wkind == "gen":
@@ -594,62 +619,86 @@ def _stft_plan_err(e):
     return "other", _err_obs(e)
 
 
-def _impl_stft(c):
-    from audiolazy import stft, overlap_add, Stream
-    num = c["num"]
-    rec = {"trace": [], "ola_kwargs": None}
-    f1, f2 = _fn_table(num)
-    pyobj, tag_of = {}, {}
+class _StftEnv(object):
+    """the Python objects named by the tags of a case (built once: in a history they are shared by the calls)"""
 
-    def mk_fn(tag, o):
-        name, a = o["name"], _py(o.get("arg", 0), num)
+    def __init__(self, objs, num):
+        from audiolazy import overlap_add
+        self.num = num
+        self.rec = rec = {"trace": [], "ola_kwargs": None}
+        self.pyobj, self.tag_of = {}, {}
+        f1, f2 = _fn_table(num)
+        env = self
 
-        def spy(blk, *extra):
-            rec["trace"].append([tag, [enc(x) for x in blk], list(extra)])
-            if name in f2:
-                return f2[name](blk, a, *extra)
-            return f1[name](blk, a)
-        spy.__name__ = "spy_" + tag[1:]
-        return spy
+        def mk_fn(tag, o):
+            name, a = o["name"], _py(o.get("arg", 0), num)
 
-    def canon(v):
+            def spy(blk, *extra):
+                rec["trace"].append([tag, [enc(x) for x in blk], list(extra)])
+                if name in f2:
+                    return f2[name](blk, a, *extra)
+                return f1[name](blk, a)
+            spy.__name__ = "spy_" + tag[1:]
+            return spy
+
+        def spy_ola(blks, **kw):
+            rec["ola_kwargs"] = [[k, env.canon(v)] for k, v in kw.items()]
+            return overlap_add.list(blks, **kw)
+
+        for tag, o in objs.items():
+            if o["type"] == "fn":
+                self.pyobj[tag] = mk_fn(tag, o)
+            elif o["type"] == "wnd":
+                self.pyobj[tag] = _py_wnd({"wnd": o["wnd"], "wkind": o.get("wkind", "list"), "num": num})
+            elif o["type"] == "ola":
+                self.pyobj[tag] = spy_ola if o["name"] == "spy" else overlap_add.list
+        for tag, v in self.pyobj.items():
+            self.tag_of[id(v)] = tag
+
+    def canon(self, v):
         if v is None or isinstance(v, (bool, int)):
             return v if not isinstance(v, bool) else int(v)
-        return tag_of.get(id(v), "<object>")
+        return self.tag_of.get(id(v), "<object>")
 
-    def spy_ola(blks, **kw):
-        rec["ola_kwargs"] = [[k, canon(v)] for k, v in kw.items()]
-        return overlap_add.list(blks, **kw)
+    def kw(self, d):
+        return dict((k, self.pyobj[v] if isinstance(v, str) else v) for k, v in d)
 
-    for tag, o in c["objs"].items():
-        if o["type"] == "fn":
-            pyobj[tag] = mk_fn(tag, o)
-        elif o["type"] == "wnd":
-            pyobj[tag] = _py_wnd({"wnd": o["wnd"], "wkind": o.get("wkind", "list"), "num": num})
-        elif o["type"] == "ola":
-            pyobj[tag] = spy_ola if o["name"] == "spy" else overlap_add.list
-    for tag, v in pyobj.items():
-        tag_of[id(v)] = tag
 
-    def kw(d):
-        return dict((k, pyobj[v] if isinstance(v, str) else v) for k, v in d)
-
-    sig = [_py(x, num) for x in c["sig"]]
+def _stft_exec(env, c, sig=None, call_kw=None, cache=None, reuse="none"):
+    """one call of the wrapper described by `c` (style, chain, func, call, sig).  `cache` / `reuse`: in a
+    history the wrapper ("wrapper") or the first partial application ("partial") is built once and used again"""
+    from audiolazy import stft
+    rec, kw, pyobj = env.rec, env.kw, env.pyobj
+    rec["trace"], rec["ola_kwargs"] = [], None
+    if sig is None:
+        sig = [_py(x, env.num) for x in c["sig"]]
+    if call_kw is None:
+        call_kw = kw(c["call"])
+    cache = {} if cache is None else cache
     obs = {"phase": None, "err": None, "out": None, "blocks": None}
     try:
         chain = c["chain"]
         func = pyobj[c["func"]]
-        if c["style"] == "direct":
-            proc = stft(func, **kw(chain[0]))
-        elif c["style"] == "decorator":
-            proc = stft(**kw(chain[0]))(func)            # what `@stft(**kw)` does
-        else:
-            p = stft(**kw(chain[0]))
-            for d in chain[1:-1]:
-                p = p(**kw(d))
-            proc = p(func, **kw(chain[-1]))
+        proc = cache.get("proc") if reuse == "wrapper" else None
+        if proc is None:
+            if c["style"] == "direct":
+                proc = stft(func, **kw(chain[0]))
+            else:
+                p = cache.get("partial") if reuse == "partial" else None
+                if p is None:
+                    p = stft(**kw(chain[0]))                  # what `@stft(**kw)` does
+                    if reuse == "partial":
+                        cache["partial"] = p
+                if c["style"] == "decorator":
+                    proc = p(func)
+                else:
+                    for d in chain[1:-1]:
+                        p = p(**kw(d))
+                    proc = p(func, **kw(chain[-1]))
+            if reuse == "wrapper":
+                cache["proc"] = proc
         obs["phase"] = "call"
-        res = proc(sig, **kw(c["call"]))
+        res = proc(sig, **call_kw)
         obs["phase"] = "iter"
         merged = {}
         for d in chain + [c["call"]]:
@@ -671,25 +720,42 @@ def _impl_stft(c):
     return obs
 
 
+def _impl_stft(c):
+    return _stft_exec(_StftEnv(c["objs"], c["num"]), c)
+
+
+def _run_ola(blks, kw):
+    from audiolazy import overlap_add
+    out, err = [], None
+    try:
+        for x in overlap_add.list(blks, **kw):
+            out.append(x)
+    except Exception as e:
+        err = _err_obs(e)
+    return {"out": [enc(x) for x in out], "err": err,
+            "floats": sum(1 for x in out if isinstance(x, float))}
+
+
 def impl(c):
+    if c["entry"] == "hist":
+        return _impl_hist(c)
+    _zygote_start()            # fork the pristine process before this process runs its first case
+    _ISO["dirty"] = True
     from audiolazy import overlap_add
     if c["entry"] == "ola":
-        out, err = [], None
+        kw = {"normalize": c["normalize"]} if c.get("normalize_given", True) else {}
+        if c["size"] is not None:
+            kw["size"] = c["size"]
+        if c["hop"] is not None:
+            kw["hop"] = c["hop"]
         try:
-            kw = {"normalize": c["normalize"]} if c.get("normalize_given", True) else {}
-            if c["size"] is not None:
-                kw["size"] = c["size"]
-            if c["hop"] is not None:
-                kw["hop"] = c["hop"]
             w = _py_wnd(c)
             if w is not None or c.get("wkind") == "none_explicit":
                 kw["wnd"] = w
-            for x in overlap_add.list(_py_blks(c), **kw):
-                out.append(x)
+            blks = _py_blks(c)
         except Exception as e:
-            err = _err_obs(e)
-        return {"out": [enc(x) for x in out], "err": err,
-                "floats": sum(1 for x in out if isinstance(x, float))}
+            return {"out": [], "err": _err_obs(e), "floats": 0}
+        return _run_ola(blks, kw)
     if c["entry"] == "stft":
         return _impl_stft(c)
     if c["entry"] == "ola_sig":
@@ -718,6 +784,8 @@ def impl(c):
 
 
 def request(c):
+    if c["entry"] == "hist":
+        return {"entry": "hist", "calls": [request(sub) for sub in _subcases(c)]}
     r = dict(c)
     for k in ("wkind", "num", "route", "regime", "kind", "normalize_given"):
         r.pop(k, None)
@@ -826,6 +894,12 @@ def _compare_stft(c, io, drv):
 
 def compare(c, io, drv):
     _LAST[id(c)] = drv
+    if c["entry"] == "hist":
+        return _compare_hist(c, io, drv)
+    return _compare_one(c, io, drv)
+
+
+def _compare_one(c, io, drv):
     if c["entry"] == "stft":
         return _compare_stft(c, io, drv)
     out = []
@@ -859,6 +933,10 @@ def compare(c, io, drv):
 
 
 def nontrivial(c, io):
+    if c["entry"] == "hist":
+        good = [o for o in io.get("calls", []) if o.get("err") is None and (o.get("out") or o.get("blocks"))]
+        shared = any(len(u) >= 2 and c["objs"][t]["type"] not in ("fn", "ola") for t, u in _tag_uses(c).items())
+        return bool(good) and shared
     if c["entry"] == "stft":
         return io.get("err") is None and len(io.get("trace") or []) >= 1
     if c["entry"] == "ola_sig":
@@ -885,6 +963,8 @@ def _tally_stft(eng, c, io):
 
 def tally(eng, c, io):
     drv = _LAST.pop(id(c), None) or {}
+    if c["entry"] == "hist":
+        return _tally_hist(eng, c, io)
     if c["entry"] == "stft":
         sp = drv.get("spec") or {}
         eng.count("stft_spec_identity_reconstruction", "checked on %s samples" % ("0" if not sp.get("covered") else "1+")
@@ -958,6 +1038,14 @@ def _resize(c, size):
 def shrink(c):
     """smaller cases; never wanders into the configuration of the known defect D7 (size detection on no block),
     so that a different failure is not minimised into the known one"""
+    if c["entry"] == "hist":
+        seen = set()
+        for d in _shrink_hist(c):
+            k = common.json.dumps(d, sort_keys=True)
+            if k not in seen and d["calls"]:
+                seen.add(k)
+                yield d
+        return
     if c["entry"] == "stft":
         for d in _shrink_stft(c):
             yield d
@@ -1081,6 +1169,8 @@ def neighbours(c):
 
 
 def classify(c, io, drv):
+    if c["entry"] == "hist":
+        return _classify_hist(c, io, drv)
     if c["entry"] == "ola":
         e = io.get("err")
         if e is not None and c["size"] is None and not c["blks"] and e["tag"] == "generator-raised-StopIteration":
@@ -1110,3 +1200,857 @@ def classify(c, io, drv):
             return "stft:ola-keywords"
         return "stft:content"
     return "unclassified"
+
+
+# ==============================================================================================
+# histories: several calls that SHARE argument objects
+# ==============================================================================================
+# The property fixes the output of a call as a function of the argument VALUES of that call.  Hence
+#   (a) a call must not modify its arguments (window list, the list returned by a window callable,
+#       block objects, the signal, keyword dictionaries) and
+#   (b) the result of a call must not depend on earlier calls.
+# A history case is
+#   {"entry": "hist", "num": …, "objs": {tag: object}, "calls": [call, …]}
+# objects (built ONCE per history, so every call naming the tag receives the same Python object):
+#   {"type": "wnd", "wkind": "list"|"tuple"|"memo"|"callable", "wnd": {"kind": "seq"|"callable", …}}
+#        memo = window function returning the same list object again; callable = a fresh list per call
+#   {"type": "blks", "blks": [[…], …], "route": "list"|"tuples"|"deques"|"iter"|"stream"}   block objects
+#   {"type": "sig", "sig": […]}                       signal list handed to the stft wrapper
+#   {"type": "kw", "items": [[k, v], …]}              one dict object passed as **kw by several calls
+#   {"type": "proc", "style", "chain", "func", "reuse": "wrapper"|"partial"|"none"}   stft wrapper: the same
+#        wrapper object called again / the same partial application `stft(**kw)` specialised again / rebuilt
+#   {"type": "fn"|"ola", …}                           as in the stft cases
+# calls:
+#   {"op": "ola", "blks": tag, "kw": tag | [[k, v], …]}                 overlap_add.list(blks, **kw)
+#   {"op": "stft", "proc": tag, "sig": tag | […], "call": tag | [[k, v], …]}   proc(sig, **call)
+# Oracle: every call is sent to the driver as a stand-alone "ola" / "stft" request built from the pristine
+# values in the case (`_subcases`), i.e. the model / spec of that call taken alone.
+
+HIST_WKINDS = ["list", "list", "memo", "memo", "memo", "tuple", "callable"]
+HIST_ROUTES = ["list", "list", "list", "tuples", "deques", "iter", "stream"]
+
+
+def _items(c, ref):
+    return c["objs"][ref]["items"] if isinstance(ref, str) else ref
+
+
+def _sub_ola(c, call):
+    kw = dict((k, v) for k, v in _items(c, call["kw"]))
+    B = c["objs"][call["blks"]]
+    wtag = kw.get("wnd")
+    wo = c["objs"][wtag] if isinstance(wtag, str) else None
+    d = {"entry": "ola", "blks": B["blks"], "size": kw.get("size"), "hop": kw.get("hop"),
+         "wnd": wo["wnd"] if wo else None, "normalize": bool(kw.get("normalize", True)),
+         "wkind": wo["wkind"] if wo else "none", "num": c["num"], "route": B.get("route", "list")}
+    if "normalize" not in kw:
+        d["normalize_given"] = False
+    d["regime"] = _regime(d)
+    return d
+
+
+def _proc(c, tag):
+    """a wrapper description with its full keyword chain; {"partial_of": base} = the first partial application
+    `stft(**chain[0])` of `base` specialised a second time (other later levels / another function)"""
+    P = c["objs"][tag]
+    if P.get("partial_of") in c["objs"]:
+        B = c["objs"][P["partial_of"]]
+        return dict(P, style=B["style"], chain=[B["chain"][0]] + P["chain"], reuse="partial")
+    return P
+
+
+def _sub_stft(c, call):
+    P = _proc(c, call["proc"])
+    sig = c["objs"][call["sig"]]["sig"] if isinstance(call["sig"], str) else call["sig"]
+    d = {"entry": "stft", "style": P["style"], "chain": P["chain"], "call": _items(c, call["call"]),
+         "func": P["func"], "sig": sig,
+         "objs": dict((t, o) for t, o in c["objs"].items() if o["type"] in ("wnd", "fn", "ola")),
+         "num": c["num"], "kind": "hist"}
+    d["regime"] = _regime_stft(d)
+    return d
+
+
+def _subcases(c):
+    return [_sub_ola(c, k) if k["op"] == "ola" else _sub_stft(c, k) for k in c["calls"]]
+
+
+def _fmt_kw(items):
+    return ", ".join("%s=%s" % (k, v) for k, v in items)
+
+
+def _describe(c, upto=None):
+    """the history as Python-like text (tags name the shared objects of c["objs"])"""
+    out = []
+    for k in c["calls"][:upto]:
+        if k["op"] == "ola":
+            kw = k["kw"]
+            out.append("overlap_add.list(%s, %s)" % (k["blks"], ("**%s{%s}" % (kw, _fmt_kw(_items(c, kw))))
+                                                     if isinstance(kw, str) else _fmt_kw(kw)))
+        else:
+            P = _proc(c, k["proc"])
+            cal = k["call"]
+            out.append("%s[%s %s; %s](%s%s)" % (
+                k["proc"], P["style"], P["reuse"], " | ".join(_fmt_kw(l) for l in P["chain"]),
+                k["sig"] if isinstance(k["sig"], str) else "sig[%d]" % len(k["sig"]),
+                (", **%s{%s}" % (cal, _fmt_kw(_items(c, cal)))) if isinstance(cal, str) else
+                (", " + _fmt_kw(cal) if cal else "")))
+    kinds = ", ".join("%s=%s" % (t, o.get("wkind") if o["type"] == "wnd" else o["type"])
+                      for t, o in sorted(c["objs"].items()) if o["type"] in ("wnd", "blks", "sig", "kw"))
+    return "[" + "; ".join(out) + "] with " + kinds
+
+
+def _tag_uses(c):
+    """tag -> list of (call index, slot) for windows / blocks / signals / kwargs / wrappers"""
+    uses = {}
+
+    def use(v, i, slot):
+        if isinstance(v, str) and v in c["objs"]:
+            uses.setdefault(v, []).append((i, slot))
+    for i, k in enumerate(c["calls"]):
+        if k["op"] == "ola":
+            use(k["blks"], i, "blks")
+            use(k["kw"], i, "kw")
+            for key, v in _items(c, k["kw"]):
+                use(v, i, key)
+        else:
+            use(k["proc"], i, "proc")
+            use(k["sig"], i, "sig")
+            use(k["call"], i, "kw")
+            P = _proc(c, k["proc"])
+            if c["objs"][k["proc"]].get("partial_of"):
+                use(c["objs"][k["proc"]]["partial_of"], i, "proc")
+            merged = {}
+            for lv in P["chain"] + [_items(c, k["call"])]:
+                for key, v in lv:
+                    merged[key] = v
+            for key, v in merged.items():
+                use(v, i, key)
+            use(P["func"], i, "func")
+    return uses
+
+
+def _gc(c):
+    """drop the objects no call refers to (directly, through a kwargs dict or through a wrapper)"""
+    live, todo = set(), []
+    for k in c["calls"]:
+        todo += [v for v in (k.get("blks"), k.get("kw"), k.get("proc"), k.get("sig"), k.get("call")) if isinstance(v, str)]
+        for key in ("kw", "call"):
+            if isinstance(k.get(key), list):
+                todo += [v for _, v in k[key] if isinstance(v, str)]
+    while todo:
+        t = todo.pop()
+        if t in live or t not in c["objs"]:
+            continue
+        live.add(t)
+        o = c["objs"][t]
+        if o["type"] == "kw":
+            todo += [v for _, v in o["items"] if isinstance(v, str)]
+        elif o["type"] == "proc":
+            todo.append(o["func"])
+            if o.get("partial_of"):
+                todo.append(o["partial_of"])
+            todo += [v for lv in o["chain"] for _, v in lv if isinstance(v, str)]
+    return dict(c, objs=dict((t, o) for t, o in c["objs"].items() if t in live))
+
+
+# ---- generation ---------------------------------------------------------------------------------
+def _hist_wnd_obj(rng, sizes, num, wkind=None):
+    wkind = wkind or rng.choice(HIST_WKINDS)
+    size = sizes[0]
+    if wkind in ("memo", "callable"):
+        # a table by size (the code must ask for wnd(size)); every entry has its own values
+        wnd = {"kind": "callable", "table": [[n, _rand_wnd(rng, n, num)] for n in sorted(set(sizes))], "default": None}
+    else:
+        wnd = {"kind": "seq", "w": _rand_wnd(rng, size, num)}
+    return {"type": "wnd", "wkind": wkind, "wnd": wnd}
+
+
+def _hist_ola_calls(rng, objs, size, hop, wtags, btags, n, first_norm=0.7):
+    calls = []
+    for k in range(n):
+        b = rng.choice(btags)
+        items = []
+        if rng.random() < 0.7 or not objs[b]["blks"]:
+            items.append(["size", size])
+        h = hop if rng.random() < 0.7 else rng.randint(1, size)
+        if h != size or rng.random() < 0.5:
+            items.append(["hop", h])
+        w = rng.choice([None] + wtags * 3) if wtags else None
+        if w is not None or rng.random() < 0.3:
+            items.append(["wnd", w])
+        norm = rng.random() < (first_norm if k == 0 else 0.5)
+        if not norm or rng.random() < 0.6:
+            items.append(["normalize", norm])
+        rng.shuffle(items)
+        calls.append({"op": "ola", "blks": b, "kw": items})
+    return calls
+
+
+def _share_kw(rng, c, key):
+    """make two calls pass the same dict object (**kw): the later one takes over the keywords of the earlier"""
+    idx = [i for i, k in enumerate(c["calls"]) if key in k and isinstance(k[key], list)]
+    if len(idx) < 2:
+        return
+    i, j = sorted(rng.sample(idx, 2))
+    tag = "@k%d" % sum(1 for o in c["objs"].values() if o["type"] == "kw")
+    c["objs"][tag] = {"type": "kw", "items": c["calls"][i][key]}
+    c["calls"][i][key] = tag
+    c["calls"][j][key] = tag
+
+
+def _mk_hist_ola(rng, quick=True):
+    num = rng.choice(["int", "frac", "frac", "float"])
+    size = rng.randint(1, 6 if quick else 10)
+    hop = rng.choice([1, size, max(1, size // 2), rng.randint(1, size)])
+    objs = {}
+    nw = rng.choice([1, 1, 2])
+    for i in range(nw):
+        objs["@w%d" % i] = _hist_wnd_obj(rng, [size, hop], num)
+    nb = rng.choice([1, 1, 1, 2])
+    for i in range(nb):
+        m = rng.choice([0, 1, 2, 2, 3, 3, 4])
+        objs["@b%d" % i] = {"type": "blks", "route": rng.choice(HIST_ROUTES),
+                            "blks": [[_rand_val(rng, num) for _ in range(size)] for _ in range(m)]}
+    n = rng.choice([2, 2, 3, 3, 4])
+    c = {"entry": "hist", "num": num, "objs": objs,
+         "calls": _hist_ola_calls(rng, objs, size, hop, ["@w%d" % i for i in range(nw)],
+                                  ["@b0"] * 3 + ["@b%d" % i for i in range(nb)], n)}
+    if rng.random() < 0.3:
+        _share_kw(rng, c, "kw")
+    return _gc(c)
+
+
+def _mk_hist_stft(rng, quick=True):
+    kind = rng.choice(["plain", "plain", "identity", "identity", "bad", "ola_none"])
+    base = _mk_stft(rng, kind)
+    num = base["num"]
+    objs = dict((t, dict(o)) for t, o in base["objs"].items())
+    levels = [[list(kv) for kv in lv] for lv in base["chain"]] + [[list(kv) for kv in base["call"]]]
+    merged = {}
+    for lv in levels:
+        for k, v in lv:
+            merged[k] = v
+    size = merged.get("size")
+    # windows: only kinds that can be handed over twice (no generators / Streams: they are consumed by nature)
+    for t, o in objs.items():
+        if o["type"] != "wnd":
+            continue
+        w = o["wnd"]
+        if w.get("kind") == "callable":
+            o["wkind"] = rng.choice(["memo", "memo", "callable"])
+        elif w.get("kind") == "seq":
+            if w["w"] and rng.random() < 0.4:      # the same values behind a memoised window function
+                n = len(w["w"])
+                o["wnd"] = {"kind": "callable", "table": [[n, w["w"]]], "default": None}
+                o["wkind"] = "memo"
+            else:
+                o["wkind"] = rng.choice(["list", "list", "tuple"])
+    # aliasing: one window object for analysis and synthesis
+    ola_on = merged.get("ola", "absent") in ("@spy", "@list")
+    def aliasable(t):      # a scalar "window" is an int: the spy reports its value, not its tag
+        return isinstance(t, str) and objs[t]["wnd"].get("kind") in ("seq", "callable")
+    if ola_on and aliasable(merged.get("wnd")) and rng.random() < 0.6:
+        wa = merged["wnd"]
+        hit = False
+        for lv in levels:
+            for kv in lv:
+                if kv[0] == "ola_wnd":
+                    kv[1], hit = wa, True
+        if not hit:
+            levels[rng.randrange(len(levels))].append(["ola_wnd", wa])
+    elif ola_on and aliasable(merged.get("ola_wnd")) and "wnd" not in merged and rng.random() < 0.5:
+        levels[rng.randrange(len(levels))].append(["wnd", merged["ola_wnd"]])
+    chain, call0 = levels[:-1], levels[-1]
+    reuse = rng.choice(["wrapper", "wrapper", "wrapper", "partial", "none"] + (["partial"] * 3 if base["style"] != "direct" else []))
+    objs["@p0"] = {"type": "proc", "style": base["style"], "chain": chain, "func": base["func"], "reuse": reuse}
+    procs = ["@p0"]
+    if reuse == "partial" and base["style"] != "direct" and rng.random() < 0.7:
+        # the same partial application `stft(**chain[0])` specialised a second time, differently
+        later = [[list(kv) for kv in lv] for lv in chain[1:]]
+        func = base["func"]
+        if base["style"] == "decorator" or rng.random() < 0.3:
+            objs["@g"] = {"type": "fn", "name": rng.choice(FN1), "arg": _rand_val(rng, "frac" if num == "float" else num)}
+            func = "@g"
+        if later:
+            lv = later[rng.randrange(len(later))]
+            for _e in range(rng.choice([1, 2])):
+                r = rng.random()
+                if r < 0.3 and ola_on:
+                    lv.append(["ola_normalize", rng.random() < 0.5])
+                elif r < 0.5 and isinstance(size, int):
+                    lv.append(["hop", rng.randint(1, size)])
+                elif r < 0.7 and lv:
+                    lv.pop(rng.randrange(len(lv)))
+                else:
+                    lv.append([rng.choice(["before", "after", "transform", "inverse_transform"]), None])
+            for l2 in later:          # one value per key and level
+                seen = {}
+                for kv in l2:
+                    seen[kv[0]] = kv[1]
+                l2[:] = [[k, v] for k, v in seen.items()]
+        objs["@p1"] = {"type": "proc", "partial_of": "@p0", "chain": later, "func": func, "reuse": "partial"}
+        procs.append("@p1")
+    merged = {}
+    for lv in levels:
+        for k, v in lv:
+            merged[k] = v
+    wtags = sorted(t for t, o in objs.items() if o["type"] == "wnd" and aliasable(t))
+    share_sig = rng.random() < 0.5
+    if share_sig:
+        objs["@s0"] = {"type": "sig", "sig": base["sig"]}
+    calls = [{"op": "stft", "proc": "@p0", "sig": "@s0" if share_sig else base["sig"], "call": call0}]
+    n = rng.choice([1, 2, 2, 3, 3, 4]) if len(procs) == 1 else rng.choice([2, 3, 3, 4])
+    eff_hop = merged.get("hop") or size or 1
+    for _ in range(n - 1):
+        cal = [list(kv) for kv in call0]
+        if rng.random() < 0.65:
+            for _e in range(rng.choice([1, 1, 2])):
+                keys = dict((k, i) for i, (k, _) in enumerate(cal))
+
+                def put(k, v):
+                    if k in keys:
+                        cal[keys[k]][1] = v
+                    else:
+                        cal.append([k, v])
+                r = rng.random()
+                if r < 0.35 and ola_on:
+                    put("ola_normalize", not merged.get("ola_normalize", True) if rng.random() < 0.7 else rng.random() < 0.5)
+                elif r < 0.55 and wtags:
+                    put("wnd", rng.choice(wtags + [None]))
+                elif r < 0.7 and wtags and ola_on:
+                    put("ola_wnd", rng.choice(wtags + [None]))
+                elif r < 0.8 and isinstance(size, int):
+                    put("hop", rng.randint(1, size))
+                elif r < 0.9 and cal:
+                    cal.pop(rng.randrange(len(cal)))
+                else:
+                    put(rng.choice(["before", "after"]), None)
+        if share_sig and rng.random() < 0.6:
+            sig = "@s0"
+        else:
+            ln = rng.choice([0, 1, (size or 1), (size or 1) + 1, rng.randint(0, 12), (size or 1) + 2 * eff_hop])
+            sig = [_rand_val(rng, num) for _ in range(ln)]
+        calls.append({"op": "stft", "proc": rng.choice(procs), "sig": sig, "call": cal})
+    c = {"entry": "hist", "num": num, "objs": objs, "calls": calls}
+    # mixed: overlap_add.list called directly with the windows of the wrapper
+    if isinstance(size, int) and size >= 1 and rng.random() < 0.35:
+        ok = [t for t in wtags if (objs[t]["wnd"].get("kind") == "seq" and len(objs[t]["wnd"]["w"]) == size) or
+              (objs[t]["wnd"].get("kind") == "callable" and size in [r[0] for r in objs[t]["wnd"]["table"]])]
+        if ok:
+            objs["@b0"] = {"type": "blks", "route": rng.choice(HIST_ROUTES),
+                           "blks": [[_rand_val(rng, num) for _ in range(size)] for _ in range(rng.randint(1, 3))]}
+            for k in _hist_ola_calls(rng, objs, size, min(eff_hop, size), ok, ["@b0"], rng.choice([1, 1, 2]), first_norm=0.8):
+                calls.insert(rng.randrange(len(calls) + 1), k)
+    if rng.random() < 0.25:
+        _share_kw(rng, c, "call")
+    return _gc(c)
+
+
+def _gen_hist(rng, tier, scale):
+    quick = tier == "quick"
+    n_ola = (500 if quick else 9000) * scale
+    n_stft = (500 if quick else 9000) * scale
+    out = [_mk_hist_ola(rng, quick) for _ in range(n_ola)] + [_mk_hist_stft(rng, quick) for _ in range(n_stft)]
+    rng.shuffle(out)        # the first ISO_ALWAYS histories (always run in isolation) are a mix
+    return out
+
+
+# ---- impl ---------------------------------------------------------------------------------------
+def _enc_seq(xs):
+    out = []
+    for x in xs:
+        try:
+            out.append(enc(x))
+        except Exception:
+            out.append(repr(x))
+    return out
+
+
+def _snapshot(env, objs):
+    """the current VALUE of every argument object of the history"""
+    snap = {}
+    for t, o in objs.items():
+        v = env.pyobj.get(t)
+        if o["type"] == "wnd":
+            if o.get("wkind") == "memo":
+                snap[t] = [[n, _enc_seq(l)] for n, l in sorted(v.cache.items())]
+            elif o.get("wkind") in ("list", "tuple") and o["wnd"].get("kind") == "seq":
+                snap[t] = _enc_seq(v)
+        elif o["type"] == "blks":
+            snap[t] = [_enc_seq(b) for b in v]
+        elif o["type"] == "sig":
+            snap[t] = _enc_seq(v)
+        elif o["type"] == "kw":
+            snap[t] = [[k, env.canon(x)] for k, x in v.items()]
+    return snap
+
+
+# Every history is run on PRISTINE library state: a witness has to be self-contained (its own calls produce
+# the failure, not state left in the library by earlier cases of the same run: module globals, default
+# arguments, function attributes, caches).  A "zygote" process is forked before any case has run; it never
+# runs a case itself and forks one short-lived child per history (a few ms), which returns the observation.
+# Cost: ~15 ms per history (fork).  The first ISO_ALWAYS histories of a run are isolated unconditionally; after
+# that a history is first run in this process (0.8 ms) and run again in isolation only when it disagrees
+# (`_compare_hist`), the isolated observation replacing the in-process one.
+ISO_ALWAYS = 300
+_ISO = {"zygote": None, "dirty": False, "failed": False, "n": 0}
+
+
+def _fresh_audiolazy():
+    """forget every audiolazy module: the next `from audiolazy import …` executes the sources again"""
+    import sys
+    for k in [k for k in sys.modules if k == "audiolazy" or k.startswith("audiolazy.")]:
+        del sys.modules[k]
+
+
+def _zygote_start():
+    import os, sys, json
+    if _ISO["zygote"] is not None or _ISO["failed"]:
+        return
+    try:
+        req_r, req_w = os.pipe()
+        res_r, res_w = os.pipe()
+        pid = os.fork()
+    except Exception:
+        _ISO["failed"] = True
+        return
+    if pid:
+        os.close(req_r)
+        os.close(res_w)
+        _ISO["zygote"] = (pid, os.fdopen(req_w, "w"), os.fdopen(res_r, "r"))
+        return
+    # ---- zygote ------------------------------------------------------------------------------------
+    try:
+        os.close(req_w)
+        os.close(res_r)
+        if _ISO["dirty"]:
+            _fresh_audiolazy()
+        import audiolazy          # noqa: imported once, pristine; the children inherit it
+        inp = os.fdopen(req_r, "r")
+        while True:
+            line = inp.readline()
+            if not line:
+                break
+            child = os.fork()
+            if child == 0:
+                try:
+                    try:
+                        obs = _impl_hist_here(json.loads(line))
+                    except Exception as e:
+                        import traceback
+                        obs = {"err": "UNMAPPED:" + err_kind(e), "trace": traceback.format_exc()[-800:]}
+                    os.write(res_w, (json.dumps(obs) + "\n").encode())
+                finally:
+                    os._exit(0)
+            _, status = os.waitpid(child, 0)
+            if status != 0:
+                os.write(res_w, (json.dumps({"err": "UNMAPPED:child-died", "status": status}) + "\n").encode())
+    finally:
+        os._exit(0)
+
+
+def _impl_hist(c, force=False):
+    import json
+    _zygote_start()
+    z = _ISO["zygote"]
+    _ISO["n"] += 1
+    if z is None or (_ISO["n"] > ISO_ALWAYS and not force):
+        _ISO["dirty"] = True
+        return dict(_impl_hist_here(c), isolated=False)
+    _, out, inp = z
+    out.write(json.dumps(c) + "\n")
+    out.flush()
+    line = inp.readline()
+    if not line:
+        _ISO["zygote"], _ISO["failed"] = None, True
+        _ISO["dirty"] = True
+        return dict(_impl_hist_here(c), isolated=False)
+    return json.loads(line)
+
+
+def _impl_hist_here(c):
+    from audiolazy import Stream
+    from collections import deque
+    num, objs = c["num"], c["objs"]
+    env = _StftEnv(objs, num)
+    for t, o in objs.items():
+        if o["type"] == "blks":
+            blks = [[_py(x, num) for x in b] for b in o["blks"]]
+            route = o.get("route", "list")
+            env.pyobj[t] = [tuple(b) for b in blks] if route == "tuples" else [deque(b) for b in blks] if route == "deques" else blks
+        elif o["type"] == "sig":
+            env.pyobj[t] = [_py(x, num) for x in o["sig"]]
+    for t, o in objs.items():
+        if o["type"] == "kw":
+            env.pyobj[t] = env.kw(o["items"])
+    pristine = _snapshot(env, objs)
+    caches, obs, mutated, reported = {}, [], [], set()
+    for i, (k, sub) in enumerate(zip(c["calls"], _subcases(c))):
+        if k["op"] == "ola":
+            B = env.pyobj[k["blks"]]
+            route = objs[k["blks"]].get("route", "list")
+            arg = iter(B) if route == "iter" else Stream(B) if route == "stream" else B
+            kw = env.pyobj[k["kw"]] if isinstance(k["kw"], str) else env.kw(k["kw"])
+            obs.append(_run_ola(arg, kw))
+        else:
+            P = _proc(c, k["proc"])
+            sig = env.pyobj[k["sig"]] if isinstance(k["sig"], str) else None
+            ckw = env.pyobj[k["call"]] if isinstance(k["call"], str) else None
+            obs.append(_stft_exec(env, sub, sig=sig, call_kw=ckw, reuse=P["reuse"],
+                                  cache=caches.setdefault(objs[k["proc"]].get("partial_of") or k["proc"], {})))
+        now = _snapshot(env, objs)
+        for t in sorted(now):
+            if now[t] != pristine[t] and t not in reported:
+                reported.add(t)
+                mutated.append({"after_call": i, "obj": t, "before": pristine[t], "after": now[t]})
+    return {"calls": obs, "mutated": mutated}
+
+
+# ---- comparison ---------------------------------------------------------------------------------
+def _obj_label(c, t):
+    o = c["objs"][t]
+    if o["type"] == "wnd":
+        return {"memo": "the list returned by the (memoised) window callable", "list": "the caller's window list",
+                "tuple": "the caller's window tuple"}.get(o.get("wkind"), "window") + " " + t
+    return {"blks": "the caller's block objects", "sig": "the caller's signal list",
+            "kw": "the caller's keyword dict"}.get(o["type"], o["type"]) + " " + t
+
+
+def _compare_hist(c, io, drv):
+    out = _compare_hist_raw(c, io, drv)
+    if not out:
+        return out
+    if io.get("isolated") is False and _ISO["zygote"] is not None:
+        io2 = _impl_hist(c, force=True)
+        if io2.get("isolated") is False:
+            return out
+        out2 = _compare_hist_raw(c, io2, drv, alone_left=1)
+        io.clear()
+        io.update(io2)
+        if out2:
+            return out2
+        io["only_after_earlier_cases"] = True
+        return [(k, "only after the earlier cases of this run (agrees when run alone on a fresh process: the library "
+                    "keeps state somewhere): " + d) for k, d in out]
+    return _compare_hist_raw(c, io, drv, alone_left=1)
+
+
+_ALONE = {}
+
+
+def _alone_oracle(c, i, o):
+    """second, model-free oracle for call #i+1 of a history: the real code on the same call as the ONLY call of a
+    fresh process.  The property makes the result a function of the argument values, so the two must agree."""
+    if _ISO["zygote"] is None:
+        return []
+    single = _gc(dict(c, calls=[c["calls"][i]]))
+    key = common.json.dumps(single, sort_keys=True)
+    if key not in _ALONE:
+        if len(_ALONE) > 20000:
+            _ALONE.clear()
+        _ALONE[key] = _impl_hist(single, force=True)
+    alone = _ALONE[key]
+    a = (alone.get("calls") or [{}])[0]
+    keys = [k for k in ("err", "out", "blocks", "trace", "ola_kwargs") if a.get(k) != o.get(k)]
+    if alone.get("isolated") is False or not keys:
+        return []
+    k0 = keys[0]
+    return [("spec", "call #%d depends on the calls before it: %s=%r here, %r when it is the only call of a fresh process"
+             % (i + 1, k0, o.get(k0), a.get(k0)))]
+
+
+def _compare_hist_raw(c, io, drv, alone_left=0):
+    out = []
+    if "calls" not in io or len(io["calls"]) != len(c["calls"]):
+        return [("model", "impl observation failed: %r" % (io,)), ("spec", "impl observation failed")]
+    subs = _subcases(c)
+    text = _describe(c)
+    first = True
+    for i, (sub, o, d) in enumerate(zip(subs, io["calls"], drv["calls"])):
+        probs = _compare_one(sub, o, d)
+        for kind, detail in probs:
+            out.append((kind, ("history %s: " % text if first else "") +
+                        "call #%d differs from the same call taken alone (%s)" % (i + 1, detail[:260])))
+            first = False
+        if probs and i > 0 and alone_left:
+            alone_left -= 1
+            out.extend(_alone_oracle(c, i, o))
+    for m in io.get("mutated", []):
+        out.append(("spec", ("history %s: " % text if first else "") +
+                    "call #%d modified %s: before=%r after=%r" % (m["after_call"] + 1, _obj_label(c, m["obj"]),
+                                                                  m["before"], m["after"])))
+        first = False
+    return out
+
+
+def _hist_bad_calls(c, io, drv):
+    if "calls" not in io:
+        return []
+    return [i for i, (sub, o, d) in enumerate(zip(_subcases(c), io["calls"], drv["calls"])) if _compare_one(sub, o, d)]
+
+
+def _classify_hist(c, io, drv):
+    if io.get("only_after_earlier_cases"):
+        return "hist:state-left-by-earlier-cases-of-the-run"
+    bad = _hist_bad_calls(c, io, drv)
+    subs = _subcases(c)
+    if bad:
+        i = bad[0]
+        inner = classify(subs[i], io["calls"][i], drv["calls"][i])
+        # one object as analysis and synthesis window of the failing call itself: no earlier call is needed
+        aliased = any(len(set(s for j, s in u if j == i and s in ("wnd", "ola_wnd"))) > 1 for u in _tag_uses(c).values())
+        if i > 0 and _alone_oracle(c, i, io["calls"][i]):
+            return "hist:result-depends-on-earlier-calls:" + inner
+        if aliased:
+            return "hist:aliased-arguments:" + inner
+        if i > 0 and _ISO["zygote"] is None:
+            return "hist:result-depends-on-earlier-calls:" + inner
+        return inner          # the call fails in the same way when it is the only call
+    if io.get("mutated"):
+        o = c["objs"][io["mutated"][0]["obj"]]
+        return "hist:argument-modified:" + (o["type"] if o["type"] != "wnd" else "wnd-" + str(o.get("wkind")))
+    return "hist:unclassified"
+
+
+# ---- statistics ---------------------------------------------------------------------------------
+def _tally_hist(eng, c, io):
+    calls = c["calls"]
+    subs = _subcases(c)
+    eng.count("hist_calls", len(calls))
+    ops = [k["op"] for k in calls]
+    eng.count("hist_ops", "ola only" if set(ops) == {"ola"} else "stft only" if set(ops) == {"stft"} else "mixed")
+    shared = set()
+    for t, u in _tag_uses(c).items():
+        o = c["objs"][t]
+        if o["type"] in ("fn", "ola"):
+            continue
+        ncalls = len(set(i for i, _ in u))
+        name = {"wnd": "window:" + str(o.get("wkind")), "blks": "blocks:" + str(o.get("route")), "sig": "signal list",
+                "kw": "kwargs dict", "proc": "stft " + ("wrapper object" if o.get("reuse") == "wrapper" else
+                                                         "partial application" if o.get("reuse") == "partial" and o.get("style") != "direct"
+                                                         else "rebuilt (not shared)")}[o["type"]]
+        if ncalls >= 2 and not (o["type"] == "wnd" and o.get("wkind") == "callable") and "not shared" not in name:
+            shared.add(name + " in >=2 calls")
+        for i in set(i for i, _ in u):
+            slots = set(s for j, s in u if j == i)
+            if {"wnd", "ola_wnd"} <= slots and o["type"] == "wnd":
+                shared.add("window:%s as wnd and ola_wnd of one call" % o.get("wkind"))
+    for s in shared or {"nothing"}:
+        eng.count("hist_shared_objects", s)
+    norms = []
+    for k, sub in zip(calls, subs):
+        if k["op"] == "ola":
+            norms.append("T" if sub["normalize"] else "F")
+            eng.count("hist_window_kind", "ola:" + str(sub["wkind"]))
+        else:
+            merged = {}
+            for lv in sub["chain"] + [sub["call"]]:
+                for kk, v in lv:
+                    merged[kk] = v
+            on = merged.get("ola", "absent") is not None
+            norms.append("-" if not on else "T" if merged.get("ola_normalize", True) not in (False, 0, None) else "F")
+            for key in ("wnd", "ola_wnd"):
+                v = merged.get(key)
+                eng.count("hist_window_kind", "stft %s:%s" % (key, c["objs"][v].get("wkind") if isinstance(v, str) and v in c["objs"] else "none"))
+    pat = "".join(x for x in norms if x != "-")      # overlap-add calls only ("-" = stft call without overlap-add)
+    eng.count("hist_normalize_pattern", pat[:4] + ("+" if len(pat) > 4 else "") or "no overlap-add")
+    # the precondition of the in-place normalisation class: a normalised call with gain != 1 on a shared window, used again later
+    pre = "no"
+    seen = set()
+    for k, sub in zip(calls, subs):
+        if k["op"] == "ola":
+            w = dict((a, b) for a, b in _items(c, k["kw"])).get("wnd")
+            if isinstance(w, str) and c["objs"][w].get("wkind") in ("memo", "list", "tuple"):
+                if w in seen:
+                    pre = "yes"
+                if sub["normalize"] and sub["wnd"] is not None:
+                    try:
+                        size = sub["size"] if sub["size"] is not None else len(sub["blks"][0])
+                        hop = sub["hop"] if sub["hop"] is not None else size
+                        wl = sub["wnd"]["w"] if sub["wnd"]["kind"] == "seq" else dict((n, l) for n, l in sub["wnd"]["table"])[size]
+                        if 1 <= hop <= size and len(wl) == size and _strided_gain([dec(x) for x in wl], hop) not in (0, 1):
+                            seen.add(w)
+                    except Exception:
+                        pass
+    if set(ops) == {"ola"}:
+        eng.count("hist_ola_normalised_gain_ne_1_then_window_reused", pre)
+    errs = sum(1 for o in io.get("calls", []) if o.get("err") is not None)
+    eng.count("hist_calls_raising", min(errs, 4))
+    eng.count("hist_arguments_modified", len(io.get("mutated", [])))
+    eng.count("hist_num", c["num"])
+
+
+# ---- shrinking ----------------------------------------------------------------------------------
+def _hist_sizes(c):
+    vals = set()
+    for o in c["objs"].values():
+        if o["type"] == "kw":
+            vals |= set(v for k, v in o["items"] if k == "size")
+        elif o["type"] == "proc":
+            vals |= set(v for lv in o["chain"] for k, v in lv if k == "size")
+    for k in c["calls"]:
+        for key in ("kw", "call"):
+            if isinstance(k.get(key), list):
+                vals |= set(v for kk, v in k[key] if kk == "size")
+    return vals
+
+
+def _resize_hist(c, old, new):
+    """the whole history with block size old -> new (old > new >= 1): blocks, windows, size / hop keywords"""
+    def fix_items(items):
+        out = []
+        for k, v in items:
+            if k == "size" and v == old:
+                v = new
+            elif k in ("hop", "ola_hop") and isinstance(v, int) and not isinstance(v, bool) and v > new:
+                v = new
+            out.append([k, v])
+        return out
+    objs = {}
+    for t, o in c["objs"].items():
+        o = dict(o)
+        if o["type"] == "wnd":
+            w = o["wnd"]
+            if w.get("kind") == "seq" and len(w["w"]) == old:
+                o["wnd"] = {"kind": "seq", "w": w["w"][:new]}
+            elif w.get("kind") == "callable":
+                tab = dict((n, l) for n, l in w["table"])
+                if old in tab:
+                    tab[new] = tab.pop(old)[:new]
+                o["wnd"] = dict(w, table=[[n, tab[n]] for n in sorted(tab)])
+        elif o["type"] == "blks":
+            o["blks"] = [b[:new] if len(b) == old else b for b in o["blks"]]
+        elif o["type"] == "kw":
+            o["items"] = fix_items(o["items"])
+        elif o["type"] == "proc":
+            o["chain"] = [fix_items(lv) for lv in o["chain"]]
+        objs[t] = o
+    calls = []
+    for k in c["calls"]:
+        k = dict(k)
+        for key in ("kw", "call"):
+            if isinstance(k.get(key), list):
+                k[key] = fix_items(k[key])
+        calls.append(k)
+    return dict(c, objs=objs, calls=calls)
+
+
+def _shrink_hist(c):
+    calls, objs = c["calls"], c["objs"]
+
+    def with_obj(t, o):
+        return dict(c, objs=dict(objs, **{t: o}))
+
+    def with_call(i, k):
+        return dict(c, calls=calls[:i] + [k] + calls[i + 1:])
+    # fewer calls: one call, two calls, one call less
+    if len(calls) > 1:
+        for i in range(len(calls)):
+            yield _gc(dict(c, calls=[calls[i]]))
+        if len(calls) > 2:
+            for i in range(len(calls)):
+                for j in range(i + 1, len(calls)):
+                    yield _gc(dict(c, calls=[calls[i], calls[j]]))
+        for i in range(len(calls)):
+            yield _gc(dict(c, calls=calls[:i] + calls[i + 1:]))
+    # every sample value 1 at once
+    def ones(o):
+        if o["type"] == "blks":
+            return dict(o, blks=[[1] * len(b) for b in o["blks"]])
+        if o["type"] == "sig":
+            return dict(o, sig=[1] * len(o["sig"]))
+        return o
+    d = dict(c, objs=dict((t, ones(o)) for t, o in objs.items()),
+             calls=[dict(k, sig=[1] * len(k["sig"])) if isinstance(k.get("sig"), list) else k for k in calls])
+    if d != c:
+        yield d
+    # smaller size (only when the history has one size throughout)
+    sizes = _hist_sizes(c)
+    blens = set(len(b) for o in objs.values() if o["type"] == "blks" for b in o["blks"])
+    if len(sizes | blens) == 1:
+        old = list(sizes | blens)[0]
+        if isinstance(old, int) and old > 1:
+            yield _resize_hist(c, old, old - 1)
+    # the shared objects
+    for t, o in sorted(objs.items()):
+        if o["type"] == "blks":
+            for i in range(len(o["blks"])):
+                yield with_obj(t, dict(o, blks=o["blks"][:i] + o["blks"][i + 1:]))
+            if any(x not in (0, 1) for b in o["blks"] for x in b):
+                yield with_obj(t, dict(o, blks=[[1] * len(b) for b in o["blks"]]))
+            if o.get("route") != "list":
+                yield with_obj(t, dict(o, route="list"))
+        elif o["type"] == "sig":
+            if o["sig"]:
+                yield with_obj(t, dict(o, sig=o["sig"][:-1]))
+                yield with_obj(t, dict(o, sig=o["sig"][1:]))
+            if any(x not in (0, 1) for x in o["sig"]):
+                yield with_obj(t, dict(o, sig=[1] * len(o["sig"])))
+        elif o["type"] == "wnd":
+            w = o["wnd"]
+            if w.get("kind") == "seq":
+                if any(x not in (1, 2) for x in w["w"]):
+                    yield with_obj(t, dict(o, wnd={"kind": "seq", "w": [2] * len(w["w"])}))
+                if any(x != 1 for x in w["w"]):
+                    yield with_obj(t, dict(o, wnd={"kind": "seq", "w": [1] * len(w["w"])}))
+                if o.get("wkind") == "tuple":
+                    yield with_obj(t, dict(o, wkind="list"))
+            elif w.get("kind") == "callable":
+                tab = w["table"]
+                for i in range(len(tab)):
+                    if len(tab) > 1:
+                        yield with_obj(t, dict(o, wnd=dict(w, table=tab[:i] + tab[i + 1:])))
+                    if any(x not in (1, 2) for x in tab[i][1]):
+                        yield with_obj(t, dict(o, wnd=dict(w, table=tab[:i] + [[tab[i][0], [2] * len(tab[i][1])]] + tab[i + 1:])))
+                    if any(x != 1 for x in tab[i][1]):
+                        yield with_obj(t, dict(o, wnd=dict(w, table=tab[:i] + [[tab[i][0], [1] * len(tab[i][1])]] + tab[i + 1:])))
+                if o.get("wkind") == "memo":
+                    yield with_obj(t, dict(o, wkind="callable"))
+        elif o["type"] == "fn" and o["name"] != "id":
+            yield with_obj(t, dict(o, name="id"))
+        elif o["type"] == "kw":
+            for i in range(len(o["items"])):
+                yield _gc(with_obj(t, dict(o, items=o["items"][:i] + o["items"][i + 1:])))
+        elif o["type"] == "proc":
+            ch = o["chain"]
+            for li, lv in enumerate(ch):
+                for ki in range(len(lv)):
+                    yield _gc(with_obj(t, dict(o, chain=ch[:li] + [lv[:ki] + lv[ki + 1:]] + ch[li + 1:])))
+            if o.get("partial_of") or any(q.get("partial_of") == t for q in objs.values()):
+                continue        # two specialisations of one partial application: keep the structure
+            if o["reuse"] != "none":
+                yield with_obj(t, dict(o, reuse="none"))
+            if len(ch) > 1:
+                merged = {}
+                for lv in ch:
+                    for k, v in lv:
+                        merged[k] = v
+                yield with_obj(t, dict(o, chain=[[[k, v] for k, v in merged.items()]], style="direct"))
+            elif o["style"] != "direct":
+                yield with_obj(t, dict(o, style="direct"))
+    # the calls
+    for i, k in enumerate(calls):
+        for key in ("kw", "call"):
+            if key not in k:
+                continue
+            if isinstance(k[key], str):
+                yield _gc(with_call(i, dict(k, **{key: objs[k[key]]["items"]})))
+                continue
+            items = k[key]
+            for j, (kk, v) in enumerate(items):
+                yield _gc(with_call(i, dict(k, **{key: items[:j] + items[j + 1:]})))
+                if kk in ("normalize", "ola_normalize") and v:
+                    yield with_call(i, dict(k, **{key: items[:j] + [[kk, False]] + items[j + 1:]}))
+                if kk == "hop" and isinstance(v, int) and v > 1:
+                    yield with_call(i, dict(k, **{key: items[:j] + [[kk, v - 1]] + items[j + 1:]}))
+        if k["op"] == "stft":
+            if objs[k["proc"]].get("partial_of"):
+                yield _gc(with_call(i, dict(k, proc=objs[k["proc"]]["partial_of"])))
+            if isinstance(k["sig"], str):
+                yield _gc(with_call(i, dict(k, sig=objs[k["sig"]]["sig"])))
+            else:
+                sig = k["sig"]
+                if sig:
+                    yield with_call(i, dict(k, sig=sig[:-1]))
+                    yield with_call(i, dict(k, sig=sig[1:]))
+                if any(x not in (0, 1) for x in sig):
+                    yield with_call(i, dict(k, sig=[1] * len(sig)))
